@@ -1,7 +1,7 @@
 (** C17 — Retry loops respect their attempt and back-off bounds and stop when
     told.  Statements only; every proof is [exact <lemma>] (or a [vm_compute]
     witness for a refuted statement). *)
-From Shk Require Import Base.Prelude Model.Retry Proofs.RetryProofs Proofs.RetryInv Proofs.RetryLts Proofs.RetryWma.
+From Shk Require Import Base.Prelude Model.Retry Proofs.RetryProofs Proofs.RetryInv Proofs.RetryLts Proofs.RetryWma Corr.C17 Proofs.RetryFast.
 Open Scope Z_scope.
 
 (** ** The back-off: for every option set, attempt number and jitter draw *)
@@ -209,6 +209,20 @@ Example c17_nonvacuous_wide_stop :
       [LCallNext 0; LCloserClosed; LCallNext (1 # 10); LTimerFires; LPoll (Some SelTimer)] =
     Some (s, [OYield true; ONone; ONone; ONone; OYield true])).
 Proof. split; eexists; vm_compute; reflexivity. Qed.
+
+(** The correspondence reaches schedule positions of several hundred (and a
+    few thousand) through [Corr.C17.skip_nextch], which does not evaluate
+    retryIn on the way: it is the state component of the model's NextCh step. *)
+Theorem c17_deep_position_shortcut_is_nextch : forall s u,
+  u_ok u = true -> ph s = PIdle ->
+  exists ob, step s (LCallNextCh u) = Some (skip_nextch s u, ob).
+Proof. exact skip_nextch_is_step. Qed.
+
+(** ... and it evaluates a sample without big-number division: the fast check
+    of Corr.C17 is the model's [jitter], within the 1 ns of tolerance. *)
+Theorem c17_fast_sample_is_model : forall b rf k x,
+  near_trunc (fma (fast_base b rf) (fast_span b rf) k) x = near (jitter b rf (u_of k)) x.
+Proof. exact fast_sample_is_model. Qed.
 
 (** ** WithMaxAttempts (as repaired by /repo commit 7eb790f): for every n >= 1,
     every success pattern [succ], every start and every label sequence: when
